@@ -14,8 +14,16 @@
 //! predicate is evaluated on the records the library returned.
 use bytes::Bytes;
 use domain::base::iana::{Class, DigestAlgorithm, Nsec3HashAlgorithm, Rtype, SecurityAlgorithm};
-use domain::base::name::Name;
+use domain::base::name::{Name, ParsedName};
+use domain::base::rdata::{ComposeRecordData, RecordData};
 use domain::base::{Record, Serial, Ttl};
+use domain::dnssec::common::{nsec3_default_hash, nsec3_hash, Nsec3HashError};
+use domain::dnssec::sign::error::SigningError;
+use domain::dnssec::sign::records::{RecordsIter, SliceRefsOrOwned};
+use domain::rdata::dnssec::{RtypeBitmap, RtypeBitmapBuilder};
+use domain::rdata::nsec3::OwnerHash;
+use domain::rdata::{Nsec, Nsec3};
+use octseq::Parser;
 use domain::dnssec::sign::denial::nsec::{generate_nsecs, GenerateNsecConfig};
 use domain::dnssec::sign::denial::nsec3::{generate_nsec3s, GenerateNsec3Config, Nsec3ParamTtlMode};
 use domain::dnssec::sign::records::{DefaultSorter, SortedRecords};
@@ -103,6 +111,9 @@ type LName = Name<Bytes>;
 type LData = ZoneRecordData<Bytes, LName>;
 type LRec = Record<LName, LData>;
 type Sorted = SortedRecords<LName, LData>;
+type VName = Name<Vec<u8>>;
+type VData = ZoneRecordData<Vec<u8>, VName>;
+type SortedV = SortedRecords<VName, VData>;
 
 // ------------------------------------------------- own name machinery
 
@@ -449,6 +460,8 @@ enum Cls {
 }
 
 struct Zone {
+    /// (TTL, MINIMUM) of the apex SOA
+    soa: (u32, u32),
     /// every record as given to the library: owner (original case), type, rdata variant
     recs: Vec<(Labels, u16, u8)>,
     types: Vec<Vec<u16>>,
@@ -520,7 +533,8 @@ impl Zone {
                 }
             })
             .collect();
-        Zone { recs, types, cls }
+        let soa = recs.iter().find(|(o, t, _)| *t == T_SOA && wire_lc(o) == wire(&u.apex_labels)).map(|(_, _, v)| soa_params(*v)).unwrap_or(soa_params(1));
+        Zone { soa, recs, types, cls }
     }
 
     fn has(&self, id: usize, t: u16) -> bool {
@@ -612,35 +626,52 @@ impl Zone {
 
 // ------------------------------------------------------ library records
 
+fn gname<O: From<Vec<u8>> + AsRef<[u8]>>(l: &Labels) -> Name<O> {
+    Name::from_octets(O::from(wire(l))).expect("valid name")
+}
+
 fn lname(l: &Labels) -> LName {
-    Name::from_octets(Bytes::from(wire(l))).expect("valid name")
+    gname(l)
+}
+
+/// SOA TTL and MINIMUM by rdata variant: variant 2 has TTL < MINIMUM, every
+/// other variant TTL > MINIMUM (RFC 9077: NSEC(3) TTL = the lesser).
+fn soa_params(v: u8) -> (u32, u32) {
+    if v == 2 {
+        (300, 1800)
+    } else {
+        (3600, 1800)
+    }
+}
+
+const REC_TTL: u32 = 3600;
+
+/// One record, generic over the octets type (Bytes and Vec<u8> are used).
+fn mk_rec_g<O: From<Vec<u8>> + AsRef<[u8]>>(owner: &Labels, t: u16, v: u8) -> Record<Name<O>, ZoneRecordData<O, Name<O>>> {
+    let nm = |a: String| -> Name<O> { gname(&vec![a.into_bytes(), b"invalid".to_vec()]) };
+    let mut ttl = REC_TTL;
+    let data: ZoneRecordData<O, Name<O>> = match t {
+        T_A => ZoneRecordData::A(A::from_octets(192, 0, 2, v)),
+        T_AAAA => ZoneRecordData::Aaaa(Aaaa::new(std::net::Ipv6Addr::new(0x2001, 0xdb8, 0, 0, 0, 0, 0, v as u16))),
+        T_NS => ZoneRecordData::Ns(Ns::new(nm(format!("ns{v}")))),
+        T_CNAME => ZoneRecordData::Cname(Cname::new(nm(format!("t{v}")))),
+        T_SOA => {
+            let (t, min) = soa_params(v);
+            ttl = t;
+            ZoneRecordData::Soa(Soa::new(nm("m".into()), nm("r".into()), Serial::from(v as u32), Ttl::from_secs(7200), Ttl::from_secs(900), Ttl::from_secs(86400), Ttl::from_secs(min)))
+        }
+        T_TXT => ZoneRecordData::Txt(Txt::from_octets(O::from(vec![3, b't', b'0' + v / 10, b'0' + v % 10])).expect("txt")),
+        T_DS => ZoneRecordData::Ds(Ds::new(v as u16, SecurityAlgorithm::RSASHA256, DigestAlgorithm::SHA256, O::from(vec![v; 32])).expect("ds")),
+        // TYPE65280 and TYPE65281 deliberately carry identical RDATA octets
+        // (two different RRsets); CAA differs.
+        T_PRIV | T_PRIV2 => ZoneRecordData::Unknown(UnknownRecordData::from_octets(Rtype::from_int(t), O::from(vec![v, 0xff])).expect("unknown")),
+        t => ZoneRecordData::Unknown(UnknownRecordData::from_octets(Rtype::from_int(t), O::from(vec![v])).expect("unknown")),
+    };
+    Record::new(gname(owner), Class::IN, Ttl::from_secs(ttl), data)
 }
 
 fn mk_rec(owner: &Labels, t: u16, v: u8) -> LRec {
-    let data: LData = match t {
-        T_A => ZoneRecordData::A(A::from_octets(192, 0, 2, v)),
-        T_AAAA => ZoneRecordData::Aaaa(Aaaa::new(std::net::Ipv6Addr::new(0x2001, 0xdb8, 0, 0, 0, 0, 0, v as u16))),
-        T_NS => ZoneRecordData::Ns(Ns::new(lname(&vec![format!("ns{v}").into_bytes(), b"invalid".to_vec()]))),
-        T_CNAME => ZoneRecordData::Cname(Cname::new(lname(&vec![format!("t{v}").into_bytes(), b"invalid".to_vec()]))),
-        T_SOA => ZoneRecordData::Soa(Soa::new(
-            lname(&vec![b"m".to_vec(), b"invalid".to_vec()]),
-            lname(&vec![b"r".to_vec(), b"invalid".to_vec()]),
-            Serial::from(1),
-            Ttl::from_secs(7200),
-            Ttl::from_secs(900),
-            Ttl::from_secs(86400),
-            Ttl::from_secs(1800),
-        )),
-        T_TXT => ZoneRecordData::Txt(Txt::<Bytes>::build_from_slice(&[b't', b'0' + v]).expect("txt")),
-        T_DS => ZoneRecordData::Ds(
-            Ds::new(v as u16, SecurityAlgorithm::RSASHA256, DigestAlgorithm::SHA256, Bytes::from(vec![v; 32])).expect("ds"),
-        ),
-        // TYPE65280 and TYPE65281 deliberately carry identical RDATA octets
-        // (two different RRsets); CAA differs.
-        T_PRIV | T_PRIV2 => ZoneRecordData::Unknown(UnknownRecordData::from_octets(Rtype::from_int(t), Bytes::from(vec![v, 0xff])).expect("unknown")),
-        t => ZoneRecordData::Unknown(UnknownRecordData::from_octets(Rtype::from_int(t), Bytes::from(vec![v])).expect("unknown")),
-    };
-    Record::new(lname(owner), Class::IN, Ttl::from_secs(3600), data)
+    mk_rec_g::<Bytes>(owner, t, v)
 }
 
 // ------------------------------------------------------------- configs
@@ -662,9 +693,18 @@ impl N3Cfg {
         json!({"salt": hex(&self.salt), "iterations": self.iters, "opt_out": self.opt_out, "exclude": self.exclude, "dnskey": self.dnskey, "ttl_mode": self.ttl_mode})
     }
     fn lib(&self) -> GenerateNsec3Config<Bytes, DefaultSorter> {
-        let salt = Nsec3Salt::<Bytes>::from_octets(Bytes::from(self.salt.clone())).expect("salt");
+        self.lib_g::<Bytes>()
+    }
+
+    /// Is this the configuration `GenerateNsec3Config::default()` documents?
+    fn is_default(&self) -> bool {
+        self.salt.is_empty() && self.iters == 0 && !self.opt_out && self.exclude && self.dnskey && self.ttl_mode == 0
+    }
+
+    fn lib_g<O: AsRef<[u8]> + From<&'static [u8]> + From<Vec<u8>>>(&self) -> GenerateNsec3Config<O, DefaultSorter> {
+        let salt = Nsec3Salt::<O>::from_octets(O::from(self.salt.clone())).expect("salt");
         let params = Nsec3param::new(Nsec3HashAlgorithm::SHA1, 0, self.iters, salt);
-        let mut cfg = GenerateNsec3Config::<Bytes, DefaultSorter>::new(params);
+        let mut cfg = GenerateNsec3Config::<O, DefaultSorter>::new(params);
         if self.opt_out {
             cfg = cfg.with_opt_out();
         }
@@ -675,9 +715,9 @@ impl N3Cfg {
             cfg = cfg.without_assuming_dnskeys_will_be_added();
         }
         cfg.with_ttl_mode(match self.ttl_mode {
-            0 => Nsec3ParamTtlMode::Soa,
-            1 => Nsec3ParamTtlMode::Fixed(Ttl::from_secs(7)),
-            _ => Nsec3ParamTtlMode::SoaMinimum,
+            0 => Nsec3ParamTtlMode::soa(),
+            1 => Nsec3ParamTtlMode::fixed(Ttl::from_secs(7)),
+            _ => Nsec3ParamTtlMode::soa_minimum(),
         })
     }
 }
@@ -763,13 +803,238 @@ struct Run<'a> {
 struct N3Run {
     cfg: N3Cfg,
     lib: GenerateNsec3Config<Bytes, DefaultSorter>,
+    lib_v: GenerateNsec3Config<Vec<u8>, DefaultSorter>,
     pidx: usize,
 }
 
 impl N3Run {
     fn new(u: &Universe, cfg: N3Cfg) -> N3Run {
-        N3Run { lib: cfg.lib(), pidx: u.pidx(&cfg.salt, cfg.iters), cfg }
+        N3Run { lib: cfg.lib(), lib_v: cfg.lib_g::<Vec<u8>>(), pidx: u.pidx(&cfg.salt, cfg.iters), cfg }
     }
+}
+
+// ------------------------------------------------ routes and raw records
+
+/// How the zone reaches the generator.
+#[derive(Clone, Copy, PartialEq, Eq, Debug)]
+enum Route {
+    /// `SortedRecords<Name<Bytes>, ..>::owner_rrs()` (slice of owned records)
+    Owned,
+    /// `RecordsIter::new_from_refs` over a `Vec<&Record>` (the `Refs` arm of
+    /// every iterator in records.rs)
+    Refs,
+    /// `RecordsIter::new(SliceRefsOrOwned::new_from_owned(&sorted[..]))`
+    Wrapped,
+    /// the same zone built with `Vec<u8>` octets (`Name<Vec<u8>>`,
+    /// `ZoneRecordData<Vec<u8>, _>`, `GenerateNsec3Config<Vec<u8>, _>`)
+    VecOcts,
+}
+
+impl Route {
+    fn name(self) -> &'static str {
+        match self {
+            Route::Owned => "owned",
+            Route::Refs => "refs",
+            Route::Wrapped => "wrapped",
+            Route::VecOcts => "vec-octets",
+        }
+    }
+    fn parse(s: &str) -> Route {
+        match s {
+            "refs" => Route::Refs,
+            "wrapped" => Route::Wrapped,
+            "vec-octets" => Route::VecOcts,
+            _ => Route::Owned,
+        }
+    }
+}
+
+/// The zone as the library holds it.
+struct Src<'a> {
+    sorted: &'a Sorted,
+    sorted_v: Option<&'a SortedV>,
+}
+
+/// A generated NSEC record reduced to wire-level facts, plus the labels of
+/// every library accessor that disagreed with OWN decoding of those facts.
+struct RawNsec {
+    owner: Vec<u8>,
+    next: Vec<u8>,
+    bitmap: Vec<u8>,
+    class_in: bool,
+    ttl: u32,
+    api: Vec<&'static str>,
+    text: String,
+}
+
+struct RawNsec3 {
+    owner: Vec<u8>,
+    next: Vec<u8>,
+    bitmap: Vec<u8>,
+    alg: u8,
+    flags: u8,
+    iters: u16,
+    salt: Vec<u8>,
+    class_in: bool,
+    ttl: u32,
+    api: Vec<&'static str>,
+    text: String,
+}
+
+struct RawParam {
+    owner: Vec<u8>,
+    alg: u8,
+    flags: u8,
+    iters: u16,
+    salt: Vec<u8>,
+    class_in: bool,
+    ttl: u32,
+    text: String,
+}
+
+/// Consumers read the generated bitmap through `RtypeBitmap::iter` /
+/// `contains`: both must agree with OWN decoding of the octets.
+fn bitmap_api<O: AsRef<[u8]>>(b: &RtypeBitmap<O>, deep: bool, api: &mut Vec<&'static str>) {
+    let raw = b.as_slice().to_vec();
+    let Some(own) = bitmap_decode(&raw) else { return };
+    match guard(|| b.iter().map(|t| t.to_int()).collect::<Vec<u16>>()) {
+        Ok(v) if v == own => {}
+        _ => api.push("RtypeBitmap::iter"),
+    }
+    match guard(|| (&*b).into_iter().count()) {
+        Ok(n) if n == own.len() => {}
+        _ => api.push("RtypeBitmap::into_iter"),
+    }
+    let mut qs: Vec<u16> = PROBE_TYPES.to_vec();
+    for t in &own {
+        qs.extend([*t, t.wrapping_sub(1), t.wrapping_add(1), t ^ 0x0100, t ^ 0x8000]);
+    }
+    match guard(|| qs.iter().all(|t| b.contains(Rtype::from_int(*t)) == own.contains(t))) {
+        Ok(true) => {}
+        _ => api.push("RtypeBitmap::contains"),
+    }
+    if guard(|| b.is_empty()).ok() != Some(own.is_empty()) {
+        api.push("RtypeBitmap::is_empty");
+    }
+    if deep {
+        match guard(|| RtypeBitmap::from_octets(raw.clone())) {
+            Ok(Ok(x)) if x == *b && x.canonical_cmp_eq(b) => {}
+            _ => api.push("RtypeBitmap::from_octets"),
+        }
+        let mut out = Vec::new();
+        if guard(|| b.compose(&mut out)).is_err() || out != raw || guard(|| b.compose_len()).ok() != Some(raw.len() as u16) {
+            api.push("RtypeBitmap::compose");
+        }
+    }
+}
+
+trait CanonEq<T> {
+    fn canonical_cmp_eq(&self, other: &T) -> bool;
+}
+impl<A: AsRef<[u8]>, B: AsRef<[u8]>> CanonEq<RtypeBitmap<B>> for RtypeBitmap<A> {
+    fn canonical_cmp_eq(&self, other: &RtypeBitmap<B>) -> bool {
+        use domain::base::cmp::CanonicalOrd;
+        self.canonical_cmp(other) == Ordering::Equal
+    }
+}
+
+fn raw_nsec<O: AsRef<[u8]>>(r: &Record<Name<O>, Nsec<O, Name<O>>>, deep: bool, verbose: bool) -> RawNsec {
+    let d = r.data();
+    let mut api = Vec::new();
+    let owner = r.owner().as_slice().to_vec();
+    let next = d.next_name().as_slice().to_vec();
+    let bitmap = d.types().as_slice().to_vec();
+    bitmap_api(d.types(), deep, &mut api);
+    if d.rtype().to_int() != T_NSEC {
+        api.push("Nsec::rtype");
+    }
+    if deep {
+        // wire form of the RDATA: next name uncompressed as stored + bitmap
+        let mut want = next.clone();
+        want.extend_from_slice(&bitmap);
+        let mut out = Vec::new();
+        if guard(|| d.compose_rdata(&mut out)).is_err() || out != want {
+            api.push("Nsec::compose_rdata");
+        } else {
+            if d.rdlen(false) != Some(want.len() as u16) {
+                api.push("Nsec::rdlen");
+            }
+            match guard(|| Nsec::<&[u8], ParsedName<&[u8]>>::parse(&mut Parser::from_ref(out.as_slice()))) {
+                Ok(Ok(back)) if back == *d => {}
+                _ => api.push("Nsec::parse"),
+            }
+        }
+    }
+    let text = if verbose { guard(|| format!("{} NSEC {} [{}]", r.owner(), d.next_name(), d.types())).unwrap_or_else(|p| format!("<Display panicked: {p}>")) } else { String::new() };
+    RawNsec { owner, next, bitmap, class_in: r.class() == Class::IN, ttl: r.ttl().as_secs(), api, text }
+}
+
+fn raw_nsec3<O: AsRef<[u8]>>(r: &Record<Name<O>, Nsec3<O>>, deep: bool, verbose: bool) -> RawNsec3 {
+    let d = r.data();
+    let mut api = Vec::new();
+    let owner = r.owner().as_slice().to_vec();
+    let next = d.next_owner().as_slice().to_vec();
+    let bitmap = d.types().as_slice().to_vec();
+    let salt = d.salt().as_slice().to_vec();
+    bitmap_api(d.types(), deep, &mut api);
+    if d.rtype().to_int() != 50 {
+        api.push("Nsec3::rtype");
+    }
+    if d.opt_out() != (d.flags() & 1 == 1) {
+        api.push("Nsec3::opt_out");
+    }
+    if deep {
+        // RFC 5155 §3.2 wire format
+        let mut want = vec![d.hash_algorithm().to_int(), d.flags()];
+        want.extend_from_slice(&d.iterations().to_be_bytes());
+        want.push(salt.len() as u8);
+        want.extend_from_slice(&salt);
+        want.push(next.len() as u8);
+        want.extend_from_slice(&next);
+        want.extend_from_slice(&bitmap);
+        let mut out = Vec::new();
+        if guard(|| d.compose_rdata(&mut out)).is_err() || out != want {
+            api.push("Nsec3::compose_rdata");
+        } else {
+            if d.rdlen(false) != Some(want.len() as u16) {
+                api.push("Nsec3::rdlen");
+            }
+            match guard(|| Nsec3::<&[u8]>::parse(&mut Parser::from_ref(out.as_slice()))) {
+                Ok(Ok(back)) if back == *d => {}
+                _ => api.push("Nsec3::parse"),
+            }
+        }
+        // presentation form of the next hashed owner: base32hex without padding
+        let own = b32hex_encode(&next);
+        match guard(|| format!("{}", d.next_owner())) {
+            Ok(s) if s.eq_ignore_ascii_case(&own) => match guard(|| s.parse::<OwnerHash<Vec<u8>>>()) {
+                Ok(Ok(h)) if h.as_slice() == next.as_slice() => {}
+                _ => api.push("OwnerHash::from_str"),
+            },
+            _ => api.push("OwnerHash::display"),
+        }
+    }
+    let text = if verbose { guard(|| format!("{} NSEC3 {}", r.owner(), d)).unwrap_or_else(|p| format!("<Display panicked: {p}>")) } else { String::new() };
+    RawNsec3 { owner, next, bitmap, alg: d.hash_algorithm().to_int(), flags: d.flags(), iters: d.iterations(), salt, class_in: r.class() == Class::IN, ttl: r.ttl().as_secs(), api, text }
+}
+
+fn raw_param<O: AsRef<[u8]>>(r: &Record<Name<O>, Nsec3param<O>>, verbose: bool) -> RawParam {
+    let d = r.data();
+    let text = if verbose { guard(|| format!("{} {} NSEC3PARAM {}", r.owner(), r.ttl().as_secs(), d)).unwrap_or_default() } else { String::new() };
+    RawParam {
+        owner: r.owner().as_slice().to_vec(),
+        alg: d.hash_algorithm().to_int(),
+        flags: d.flags(),
+        iters: d.iterations(),
+        salt: d.salt().as_slice().to_vec(),
+        class_in: r.class() == Class::IN,
+        ttl: r.ttl().as_secs(),
+        text,
+    }
+}
+
+fn show_wire(w: &[u8]) -> String {
+    unwire(w).map(|l| show_name(&l)).unwrap_or_else(|| format!("<bad name {}>", hex(w)))
 }
 
 // --------------------------------------------------------- NSEC check
@@ -780,25 +1045,34 @@ struct GotNsec {
     types: Vec<u16>,
 }
 
-fn check_nsec(run: &Run, z: &Zone, sorted: &Sorted, dnskey: bool, loc: &mut Local) {
+fn check_nsec(run: &Run, z: &Zone, src: &Src, route: Route, dnskey: bool, deep: bool, loc: &mut Local) {
     let (ctx, u) = (run.ctx, run.u);
-    let replay = || json!({"mode": "nsec", "dnskey": dnskey, "records": z.recs_json()});
-    let apex = &run.apex;
-    let mut cfg = GenerateNsecConfig::new();
-    if !dnskey {
-        cfg = cfg.without_assuming_dnskeys_will_be_added();
-    }
+    let replay = || json!({"mode": "nsec", "route": route.name(), "dnskey": dnskey, "records": z.recs_json()});
+    // both spellings of the configuration
+    let cfg = if dnskey { GenerateNsecConfig::default() } else { GenerateNsecConfig::new().without_assuming_dnskeys_will_be_added() };
     loc.evals += 1;
-    let res = guard(|| generate_nsecs(apex, sorted.owner_rrs(), &cfg));
+    let verbose = run.verbose;
+    let res: Result<Result<Vec<RawNsec>, SigningError>, String> = guard(|| match route {
+        Route::Owned => generate_nsecs(&run.apex, src.sorted.owner_rrs(), &cfg).map(|v| v.iter().map(|r| raw_nsec(r, deep, verbose)).collect()),
+        Route::Refs => {
+            let refs: Vec<&LRec> = src.sorted.iter().collect();
+            generate_nsecs(&run.apex, RecordsIter::new_from_refs(&refs), &cfg).map(|v| v.iter().map(|r| raw_nsec(r, deep, verbose)).collect())
+        }
+        Route::Wrapped => generate_nsecs(&run.apex, RecordsIter::new(SliceRefsOrOwned::new_from_owned(&src.sorted[..])), &cfg).map(|v| v.iter().map(|r| raw_nsec(r, deep, verbose)).collect()),
+        Route::VecOcts => {
+            let apex: VName = gname(&u.apex_labels);
+            generate_nsecs(&apex, src.sorted_v.expect("vec zone").owner_rrs(), &cfg).map(|v| v.iter().map(|r| raw_nsec(r, deep, verbose)).collect())
+        }
+    });
     let recs = match res {
         Err(p) => {
             loc.inc("nsec_panic");
-            ctx.violation(&format!("C13|nsec|panic|{}", panic_class(&p)), &format!("generate_nsecs panicked: {p}; zone: {}", z.text()), replay());
+            ctx.violation(&format!("C13|nsec|panic|{}", panic_class(&p)), &format!("generate_nsecs panicked: {p}; route {}; zone: {}", route.name(), z.text()), replay());
             return;
         }
         Ok(Err(e)) => {
             loc.inc("nsec_err");
-            ctx.violation(&format!("C13|nsec|error|{e:?}"), &format!("generate_nsecs returned {e:?} for a complete sorted zone: {}", z.text()), replay());
+            ctx.violation(&format!("C13|nsec|error|{e:?}"), &format!("generate_nsecs returned {e:?} for a complete sorted zone (route {}): {}", route.name(), z.text()), replay());
             return;
         }
         Ok(Ok(r)) => r,
@@ -823,14 +1097,15 @@ fn check_nsec(run: &Run, z: &Zone, sorted: &Sorted, dnskey: bool, loc: &mut Loca
     // ---- parse what the library returned
     let mut got: Vec<GotNsec> = Vec::new();
     let mut parse_ok = true;
+    let want_ttl = z.soa.0.min(z.soa.1);
     for r in &recs {
-        let o = u.id_of_wire(r.owner().as_slice());
-        let n = u.id_of_wire(r.data().next_name().as_slice());
-        let raw = r.data().types().as_slice();
+        let o = u.id_of_wire(&r.owner);
+        let n = u.id_of_wire(&r.next);
+        let raw = &r.bitmap;
         let types = bitmap_decode(raw);
         match (o, n, types) {
             (Some(owner), Some(next), Some(types)) => {
-                if bitmap_encode(&types) != raw {
+                if &bitmap_encode(&types) != raw {
                     ctx.violation("C13|nsec|bitmap|encoding-not-canonical", &format!("NSEC bitmap octets {} are not the RFC 4034 §4.1.2 encoding of their own type set", hex(raw)), replay());
                     parse_ok = false;
                 }
@@ -846,20 +1121,27 @@ fn check_nsec(run: &Run, z: &Zone, sorted: &Sorted, dnskey: bool, loc: &mut Loca
                     let _ = t;
                     "bitmap-malformed"
                 };
-                ctx.violation(&format!("C13|nsec|record|{which}"), &format!("NSEC record {} -> {} bitmap {}: {which}; zone: {}", r.owner(), r.data().next_name(), hex(raw), z.text()), replay());
+                ctx.violation(&format!("C13|nsec|record|{which}"), &format!("NSEC record {} -> {} bitmap {}: {which}; zone: {}", show_wire(&r.owner), show_wire(&r.next), hex(raw), z.text()), replay());
             }
         }
-        if r.class() != Class::IN {
+        if !r.class_in {
             ctx.violation("C13|nsec|record|class", "NSEC record class is not the zone class", replay());
+        }
+        if r.ttl != want_ttl {
+            ctx.violation("C13|nsec|record|ttl-not-min(soa-ttl,soa-minimum)", &format!("NSEC TTL {} but SOA TTL {} MINIMUM {} (RFC 9077 §3.1, documented on generate_nsecs); zone: {}", r.ttl, z.soa.0, z.soa.1, z.text()), replay());
+        }
+        for a in &r.api {
+            ctx.violation(&format!("C13|nsec|api|{a}"), &format!("{a} disagrees with the octets of the generated NSEC record {} -> {} bitmap {}", show_wire(&r.owner), show_wire(&r.next), hex(raw)), replay());
         }
     }
     if run.verbose {
         println!("zone: {}", z.text());
+        println!("route: {}", route.name());
         println!("library NSEC chain ({} records):", recs.len());
         for r in &recs {
-            let _ = guard(|| println!("  {} NSEC {} [{}]", r.owner(), r.data().next_name(), r.data().types()));
+            println!("  {} (ttl {})", r.text, r.ttl);
         }
-        println!("expected NSEC chain:");
+        println!("expected NSEC chain (ttl {want_ttl}):");
         for (i, &id) in exp.iter().enumerate() {
             let nx = if i + 1 < exp.len() { exp[i + 1] } else { u.apex };
             println!("  {} NSEC {} [{}]", u.show(id), u.show(nx), tnames(&z.nsec_types(u, id, dnskey)));
@@ -1055,33 +1337,89 @@ struct GotNsec3 {
     flags: u8,
 }
 
-fn check_nsec3(run: &Run, z: &Zone, sorted: &Sorted, n3: &N3Run, loc: &mut Local) {
+fn check_nsec3(run: &Run, z: &Zone, src: &Src, route: Route, n3: &N3Run, deep: bool, loc: &mut Local) {
     let (ctx, u) = (run.ctx, run.u);
     let cfg = &n3.cfg;
-    let replay = || json!({"mode": "nsec3", "cfg": cfg.json(), "records": z.recs_json()});
+    let replay = || json!({"mode": "nsec3", "route": route.name(), "cfg": cfg.json(), "records": z.recs_json()});
     let pidx = n3.pidx;
     let hashes = &u.hashes[pidx];
-    let apex = &run.apex;
-    let lcfg = &n3.lib;
     loc.evals += 1;
-    let res = guard(|| generate_nsec3s(apex, sorted.owner_rrs(), lcfg));
-    let out = match res {
+    let verbose = run.verbose;
+    type Out = (Vec<RawNsec3>, RawParam);
+    let res: Result<Result<Out, SigningError>, String> = guard(|| match route {
+        Route::Owned => {
+            // the documented default configuration is reached through
+            // `GenerateNsec3Config::default()` rather than through setters
+            if cfg.is_default() {
+                let d = GenerateNsec3Config::<Bytes, DefaultSorter>::default();
+                generate_nsec3s(&run.apex, src.sorted.owner_rrs(), &d).map(|o| (o.nsec3s.iter().map(|r| raw_nsec3(r, deep, verbose)).collect(), raw_param(&o.nsec3param, verbose)))
+            } else {
+                generate_nsec3s(&run.apex, src.sorted.owner_rrs(), &n3.lib).map(|o| (o.nsec3s.iter().map(|r| raw_nsec3(r, deep, verbose)).collect(), raw_param(&o.nsec3param, verbose)))
+            }
+        }
+        Route::Refs => {
+            let refs: Vec<&LRec> = src.sorted.iter().collect();
+            generate_nsec3s(&run.apex, RecordsIter::new_from_refs(&refs), &n3.lib).map(|o| (o.nsec3s.iter().map(|r| raw_nsec3(r, deep, verbose)).collect(), raw_param(&o.nsec3param, verbose)))
+        }
+        Route::Wrapped => generate_nsec3s(&run.apex, RecordsIter::new(SliceRefsOrOwned::new_from_owned(&src.sorted[..])), &n3.lib)
+            .map(|o| (o.nsec3s.iter().map(|r| raw_nsec3(r, deep, verbose)).collect(), raw_param(&o.nsec3param, verbose))),
+        Route::VecOcts => {
+            let apex: VName = gname(&u.apex_labels);
+            generate_nsec3s(&apex, src.sorted_v.expect("vec zone").owner_rrs(), &n3.lib_v).map(|o| (o.nsec3s.iter().map(|r| raw_nsec3(r, deep, verbose)).collect(), raw_param(&o.nsec3param, verbose)))
+        }
+    });
+    let (out, param) = match res {
         Err(p) => {
             loc.inc("nsec3_panic");
-            ctx.violation(&format!("C13|nsec3|panic|{}", panic_class(&p)), &format!("generate_nsec3s panicked: {p}; cfg {:?}; zone: {}", cfg, z.text()), replay());
+            ctx.violation(&format!("C13|nsec3|panic|{}", panic_class(&p)), &format!("generate_nsec3s panicked: {p}; route {}; cfg {:?}; zone: {}", route.name(), cfg, z.text()), replay());
             return;
         }
         Ok(Err(e)) => {
             loc.inc("nsec3_err");
-            ctx.violation(&format!("C13|nsec3|error|{e:?}"), &format!("generate_nsec3s returned {e:?} for a complete sorted zone; cfg {:?}; zone: {}", cfg, z.text()), replay());
+            ctx.violation(&format!("C13|nsec3|error|{e:?}"), &format!("generate_nsec3s returned {e:?} for a complete sorted zone; route {}; cfg {:?}; zone: {}", route.name(), cfg, z.text()), replay());
             return;
         }
         Ok(Ok(r)) => r,
     };
     loc.inc("nsec3_ok");
-    if out.nsec3param.data().flags() != 0 {
+    if param.flags != 0 {
         // observation only (RFC 5155 §4.1.2); not part of the property text
         loc.inc("observed_nsec3param_flags_nonzero");
+    }
+    // RFC 5155 §7.1 step 8: "add an NSEC3PARAM RR with the same Hash
+    // Algorithm, Iterations, and Salt fields to the zone apex"
+    {
+        let bad = |which: &str| {
+            ctx.violation(&format!("C13|nsec3|nsec3param|{which}"), &format!("NSEC3PARAM {} alg {} flags {} iterations {} salt {} ttl {}: {which}; cfg {:?}; zone: {}", show_wire(&param.owner), param.alg, param.flags, param.iters, hex(&param.salt), param.ttl, cfg, z.text()), replay());
+        };
+        if !param.owner.eq_ignore_ascii_case(&wire(&u.apex_labels)) {
+            bad("owner-not-apex");
+        }
+        if param.alg != 1 {
+            bad("hash-algorithm");
+        }
+        if param.iters != cfg.iters {
+            bad("iterations");
+        }
+        if param.salt != cfg.salt {
+            bad("salt");
+        }
+        if !param.class_in {
+            bad("class");
+        }
+        // documented on Nsec3ParamTtlMode
+        let want = match cfg.ttl_mode {
+            0 => z.soa.0,
+            1 => 7,
+            _ => z.soa.1,
+        };
+        if param.ttl != want {
+            bad(match cfg.ttl_mode {
+                0 => "ttl-mode-soa",
+                1 => "ttl-mode-fixed",
+                _ => "ttl-mode-soa-minimum",
+            });
+        }
     }
 
     // ---- expected sets (independent): RFC 5155 §7.1
@@ -1143,14 +1481,13 @@ fn check_nsec3(run: &Run, z: &Zone, sorted: &Sorted, n3: &N3Run, loc: &mut Local
     let mut got: Vec<GotNsec3> = Vec::new();
     let mut parse_ok = true;
     let apex_wire = wire(&u.apex_labels);
-    for r in &out.nsec3s {
-        let ow = r.owner().as_slice();
-        let d = r.data();
-        let raw = d.types().as_slice();
+    let want_ttl = z.soa.0.min(z.soa.1);
+    for r in &out {
+        let raw = &r.bitmap;
         let bad = |which: &str| {
-            ctx.violation(&format!("C13|nsec3|record|{which}"), &format!("NSEC3 record {} next {} bitmap {}: {which}; cfg {:?}; zone: {}", r.owner(), d.next_owner(), hex(raw), cfg, z.text()), replay());
+            ctx.violation(&format!("C13|nsec3|record|{which}"), &format!("NSEC3 record {} next {} bitmap {}: {which}; cfg {:?}; zone: {}", show_wire(&r.owner), b32hex_encode(&r.next), hex(raw), cfg, z.text()), replay());
         };
-        let labels = match unwire(ow) {
+        let labels = match unwire(&r.owner) {
             Some(l) if !l.is_empty() => l,
             _ => {
                 bad("owner-unparseable");
@@ -1180,56 +1517,61 @@ fn check_nsec3(run: &Run, z: &Zone, sorted: &Sorted, n3: &N3Run, loc: &mut Local
             parse_ok = false;
             continue;
         }
-        let nx = d.next_owner().as_slice();
-        if nx.len() != 20 {
+        if r.next.len() != 20 {
             bad("next-hash-length");
             parse_ok = false;
             continue;
         }
         let mut next = [0u8; 20];
-        next.copy_from_slice(nx);
+        next.copy_from_slice(&r.next);
         let Some(types) = bitmap_decode(raw) else {
             bad("bitmap-malformed");
             parse_ok = false;
             continue;
         };
-        if bitmap_encode(&types) != raw {
+        if &bitmap_encode(&types) != raw {
             bad("bitmap-encoding-not-canonical");
             parse_ok = false;
         }
-        if d.hash_algorithm() != Nsec3HashAlgorithm::SHA1 {
+        if r.alg != 1 {
             bad("field-hash-algorithm");
         }
-        if d.iterations() != cfg.iters {
+        if r.iters != cfg.iters {
             bad("field-iterations");
         }
-        if d.salt().as_slice() != cfg.salt.as_slice() {
+        if r.salt != cfg.salt {
             bad("field-salt");
         }
-        if d.flags() != cfg.opt_out as u8 {
+        if r.flags != cfg.opt_out as u8 {
             bad(if cfg.opt_out { "field-flags-optout-bit-clear" } else { "field-flags-optout-bit-set" });
         }
-        if r.class() != Class::IN {
+        if !r.class_in {
             bad("class");
+        }
+        if r.ttl != want_ttl {
+            bad("ttl-not-min(soa-ttl,soa-minimum)");
+        }
+        for a in &r.api {
+            ctx.violation(&format!("C13|nsec3|api|{a}"), &format!("{a} disagrees with the octets of the generated NSEC3 record {} next {} bitmap {}", show_wire(&r.owner), b32hex_encode(&r.next), hex(raw)), replay());
         }
         // identify the original owner name by OWN hash
         let Some(&id) = u.by_hash[pidx].get(&hash) else {
             ctx.violation(
                 "C13|nsec3|hash|owner-hash-is-not-rfc5155-hash-of-any-zone-name",
-                &format!("NSEC3 owner {} is not IH(salt={}, name, {}) of any name of the closure; zone: {}", r.owner(), hex(&cfg.salt), cfg.iters, z.text()),
+                &format!("NSEC3 owner {} is not IH(salt={}, name, {}) of any name of the closure; zone: {}", show_wire(&r.owner), hex(&cfg.salt), cfg.iters, z.text()),
                 replay(),
             );
             parse_ok = false;
             continue;
         };
-        got.push(GotNsec3 { hash, next, id, types, flags: d.flags() });
+        got.push(GotNsec3 { hash, next, id, types, flags: r.flags });
     }
     if run.verbose {
         println!("zone: {}", z.text());
-        println!("cfg: {:?}", cfg);
-        println!("library NSEC3 chain ({} records), NSEC3PARAM {} ttl {}:", out.nsec3s.len(), out.nsec3param.data(), out.nsec3param.ttl().as_secs());
-        for r in &out.nsec3s {
-            let who = unwire(r.owner().as_slice()).and_then(|l| b32hex_decode(&l[0])).and_then(|h| {
+        println!("route: {}; cfg: {:?}", route.name(), cfg);
+        println!("library NSEC3 chain ({} records), {}:", out.len(), param.text);
+        for r in &out {
+            let who = unwire(&r.owner).and_then(|l| b32hex_decode(&l[0])).and_then(|h| {
                 let mut a = [0u8; 20];
                 if h.len() == 20 {
                     a.copy_from_slice(&h);
@@ -1238,9 +1580,9 @@ fn check_nsec3(run: &Run, z: &Zone, sorted: &Sorted, n3: &N3Run, loc: &mut Local
                     None
                 }
             });
-            let _ = guard(|| println!("  {} NSEC3 {} ; original owner {:?}", r.owner(), r.data(), who));
+            println!("  {} (ttl {}) ; original owner {:?}", r.text, r.ttl, who);
         }
-        println!("expected (mandatory) original owners, in hash order:");
+        println!("expected (mandatory) original owners, in hash order (ttl {want_ttl}):");
         let mut m: Vec<usize> = mand.iter().copied().collect();
         m.sort_by_key(|i| hashes[*i]);
         for id in m {
@@ -1564,8 +1906,9 @@ fn build_universe(extra: &[Labels]) -> Universe {
     Universe::build(&parse_name(APEX), &seeds, param_menu())
 }
 
-fn apex_recs() -> Vec<(Labels, u16, u8)> {
-    vec![(parse_name(APEX), T_SOA, 1), (parse_name(APEX), T_NS, 1)]
+/// `soa_variant` 1: SOA TTL 3600 > MINIMUM 1800; 2: SOA TTL 300 < MINIMUM.
+fn apex_recs(soa_variant: u8) -> Vec<(Labels, u16, u8)> {
+    vec![(parse_name(APEX), T_SOA, soa_variant), (parse_name(APEX), T_NS, 1)]
 }
 
 /// The "extras" switch.  Records outside the zone, one sorting before the
@@ -1573,7 +1916,8 @@ fn apex_recs() -> Vec<(Labels, u16, u8)> {
 /// apex are skipped, processing stops at the first record outside the zone);
 /// plus the in-zone name `_.z.`: 0x5F lies between 'A' and 'a', so it sorts
 /// between the two spellings of a.z. unless names are compared
-/// case-insensitively as RFC 4034 §6.1 demands.
+/// case-insensitively as RFC 4034 §6.1 demands.  With extras the apex SOA
+/// also has its TTL below its MINIMUM (without: above).
 fn ooz_recs() -> Vec<(Labels, u16, u8)> {
     vec![(parse_name("m."), T_A, 1), (parse_name("zz."), T_A, 1), (parse_name("a.zz."), T_TXT, 1), (parse_name("_.z."), T_A, 1)]
 }
@@ -1592,7 +1936,7 @@ fn zone_of_index(sl: &[Slot], mut idx: u64) -> (Vec<(Labels, u16, u8)>, Vec<usiz
         }
     }
     let ooz = idx % 2 == 1;
-    recs.extend(apex_recs());
+    recs.extend(apex_recs(if ooz { 2 } else { 1 }));
     if ooz {
         recs.extend(ooz_recs());
     }
@@ -1710,7 +2054,7 @@ fn sweep_zones() -> Vec<Vec<(Labels, u16, u8)>> {
             if place == "z." && set.contains(&T_SOA) {
                 continue;
             }
-            let mut recs = apex_recs();
+            let mut recs = apex_recs(1);
             recs.push((parse_name("a.z."), T_A, 1));
             recs.push((parse_name("c.z."), T_NS, 1));
             recs.push((parse_name("g.c.z."), T_A, 1));
@@ -1735,6 +2079,380 @@ fn zone_is_nontrivial(z: &Zone) -> bool {
     let special = z.cls.iter().any(|c| matches!(c, Cls::Cut | Cls::BelowCut | Cls::Ent))
         || z.recs.iter().any(|(o, _, _)| o[0] == b"*" || o[0] == b"A");
     auth >= 2 && special
+}
+
+// ------------------------------------- other routes into SortedRecords
+
+fn sorted_v_of(recs: &[(Labels, u16, u8)]) -> SortedV {
+    SortedV::from_iter(recs.iter().map(|(o, t, v)| mk_rec_g::<Vec<u8>>(o, *t, *v)))
+}
+
+/// (owner octets as stored, type, TTL, RDATA wire) of every record, in order.
+fn content<O: AsRef<[u8]>>(recs: &[Record<Name<O>, ZoneRecordData<O, Name<O>>>]) -> Vec<(Vec<u8>, u16, u32, Vec<u8>)> {
+    recs.iter()
+        .map(|r| {
+            let mut rd = Vec::new();
+            let _ = r.data().compose_rdata(&mut rd);
+            (r.owner().as_slice().to_vec(), r.rtype().to_int(), r.ttl().as_secs(), rd)
+        })
+        .collect()
+}
+
+/// The other ways of arriving at a `SortedRecords` must hold exactly what
+/// `from_iter` holds (which check_sorted compares with OWN expectation):
+/// `From<Vec<_>>`, `new()` + `insert()` record by record (here in reverse
+/// order), a superset shrunk by `remove_all_by_name_class_rtype` /
+/// `remove_first_by_name_class_rtype`, `update_data`, `into_inner`, and the
+/// `Vec<u8>`-octets instantiation.
+fn check_routes(run: &Run, recs: &[(Labels, u16, u8)], sorted: &Sorted, sorted_v: &SortedV, loc: &mut Local) {
+    let ctx = run.ctx;
+    let replay = |route: &str| json!({"mode": "sorted", "route": route, "records": recs.iter().map(|(o, t, v)| json!([show_name(o), t, v])).collect::<Vec<_>>()});
+    let base = content(&sorted[..]);
+    let bad = |route: &'static str, what: String| {
+        ctx.violation(&format!("C13|sorted-records|route|{route}"), &format!("{what}; input: {}", recs.iter().map(|(o, t, _)| format!("{} {}", show_name(o), tname(*t))).collect::<Vec<_>>().join("; ")), replay(route));
+    };
+    loc.inc("route_checks");
+    if sorted.len() != base.len() || sorted.is_empty() != base.is_empty() || sorted.iter().count() != base.len() {
+        bad("len", format!("len() {} / iter().count() {} / deref len {}", sorted.len(), sorted.iter().count(), base.len()));
+    }
+    // From<Vec<_>>
+    match guard(|| Sorted::from(recs.iter().map(|(o, t, v)| mk_rec(o, *t, *v)).collect::<Vec<_>>())) {
+        Ok(s) if content(&s[..]) == base => {}
+        Ok(_) => bad("from-vec", "SortedRecords::from(Vec) holds different records than from_iter".into()),
+        Err(p) => bad("from-vec", format!("panicked: {p}")),
+    }
+    // new() + insert(), reverse input order; inserting a record twice must be refused
+    match guard(|| {
+        let mut s = Sorted::default();
+        let mut refused_dup = true;
+        for (o, t, v) in recs.iter().rev() {
+            if s.insert(mk_rec(o, *t, *v)).is_err() {
+                return (s, false, true);
+            }
+        }
+        if let Some((o, t, v)) = recs.first() {
+            refused_dup = s.insert(mk_rec(o, *t, *v)).is_err();
+        }
+        (s, refused_dup, false)
+    }) {
+        Ok((s, refused_dup, refused_new)) => {
+            if refused_new {
+                bad("insert", "insert() refused a record that was not present".into());
+            } else if !refused_dup {
+                bad("insert", "insert() accepted a record that was already present".into());
+            } else if content(&s.into_inner()) != base {
+                bad("insert", "new()+insert() holds different records / order than from_iter".into());
+            }
+        }
+        Err(p) => bad("insert", format!("panicked: {p}")),
+    }
+    // superset, then removals
+    match guard(|| {
+        let q = parse_name("q.z.");
+        let apex = parse_name(APEX);
+        let mut all: Vec<LRec> = recs.iter().map(|(o, t, v)| mk_rec(o, *t, *v)).collect();
+        all.push(mk_rec(&q, T_A, 31));
+        all.push(mk_rec(&q, T_A, 32));
+        all.push(mk_rec(&q, T_TXT, 31));
+        all.push(mk_rec(&apex, 100, 31)); // TYPE100 is not in any menu
+        let mut s = Sorted::from_iter(all);
+        let r1 = s.remove_first_by_name_class_rtype(&lname(&apex), Some(Class::IN), Some(Rtype::from_int(100)));
+        let r2 = s.remove_first_by_name_class_rtype(&lname(&apex), Some(Class::IN), Some(Rtype::from_int(100)));
+        let r3 = s.remove_all_by_name_class_rtype(&lname(&q), Some(Class::IN), Some(Rtype::A));
+        let r4 = s.remove_all_by_name_class_rtype(&lname(&q), None, None);
+        let r5 = s.remove_all_by_name_class_rtype(&lname(&q), None, None);
+        (s, [r1, r2, r3, r4, r5])
+    }) {
+        Ok((s, flags)) => {
+            if flags != [true, false, true, true, false] {
+                bad("remove", format!("remove_* returned {flags:?}, expected [true, false, true, true, false]"));
+            } else if content(&s[..]) != base {
+                bad("remove", "after removing the added records the collection differs from from_iter of the zone".into());
+            }
+        }
+        Err(p) => bad("remove", format!("panicked: {p}")),
+    }
+    // update_data on the apex SOA (what a signer does to bump the serial)
+    match guard(|| {
+        let mut s = sorted_of(recs);
+        let apex = lname(&parse_name(APEX));
+        let new = mk_rec(&parse_name(APEX), T_SOA, 3);
+        let newdata = new.data().clone();
+        s.update_data(|rr| rr.rtype() == Rtype::SOA && rr.owner() == &apex, newdata);
+        s
+    }) {
+        Ok(s) => {
+            let got = content(&s[..]);
+            let mut want = base.clone();
+            let apexw = wire(&parse_name(APEX));
+            let mut rd = Vec::new();
+            let _ = mk_rec(&parse_name(APEX), T_SOA, 3).data().compose_rdata(&mut rd);
+            for e in want.iter_mut() {
+                if e.1 == T_SOA && e.0.eq_ignore_ascii_case(&apexw) {
+                    e.3 = rd.clone();
+                }
+            }
+            if got != want {
+                bad("update-data", "update_data changed something other than the RDATA of the matched record".into());
+            }
+        }
+        Err(p) => bad("update-data", format!("panicked: {p}")),
+    }
+    // Vec<u8> octets
+    if content(&sorted_v[..]) != base {
+        bad("vec-octets", "SortedRecords over Vec<u8> octets holds different records / order than over Bytes".into());
+    }
+}
+
+/// `owner_rrs()` (RecordsIter / OwnerRrs / OwnerRrsIter), `rrsets()`
+/// (RrsetIter), `find_soa`, `find_apex_rtype`, `is_zone_cut`, `is_in_zone`
+/// against OWN grouping of the held records.
+fn check_iters(run: &Run, recs: &[(Labels, u16, u8)], sorted: &Sorted, held: &[(Labels, u16)], loc: &mut Local) {
+    let (ctx, u) = (run.ctx, run.u);
+    let replay = || json!({"mode": "sorted", "route": "iterators", "records": recs.iter().map(|(o, t, v)| json!([show_name(o), t, v])).collect::<Vec<_>>()});
+    let text = || recs.iter().map(|(o, t, _)| format!("{} {}", show_name(o), tname(*t))).collect::<Vec<_>>().join("; ");
+    loc.inc("iterator_checks");
+    // own grouping
+    let mut rrsets: Vec<(Vec<u8>, u16, usize)> = Vec::new();
+    for (o, t) in held {
+        let w = wire_lc(o);
+        match rrsets.last_mut() {
+            Some(l) if l.0 == w && l.1 == *t => l.2 += 1,
+            _ => rrsets.push((w, *t, 1)),
+        }
+    }
+    let mut owners: Vec<(Vec<u8>, usize, usize, bool)> = Vec::new(); // name, records, rrsets, has NS
+    for (w, t, n) in &rrsets {
+        match owners.last_mut() {
+            Some(l) if l.0 == *w => {
+                l.1 += n;
+                l.2 += 1;
+                l.3 |= *t == T_NS;
+            }
+            _ => owners.push((w.clone(), *n, 1, *t == T_NS)),
+        }
+    }
+    let apexw = wire(&u.apex_labels);
+    let apex = &run.apex;
+    let r = guard(|| {
+        let mut bad: Vec<String> = Vec::new();
+        let got: Vec<_> = sorted.owner_rrs().collect();
+        if got.len() != owners.len() {
+            bad.push(format!("owner-groups|{} groups, expected {}", got.len(), owners.len()));
+        } else {
+            for (g, w) in got.iter().zip(&owners) {
+                let name = g.owner().as_slice().to_ascii_lowercase();
+                if name != w.0 || g.records().count() != w.1 || g.rrsets().count() != w.2 || g.class() != Class::IN {
+                    bad.push(format!("owner-groups|group {} has {} records in {} rrsets, expected {} {} {}", show_wire(&name), g.records().count(), g.rrsets().count(), show_wire(&w.0), w.1, w.2));
+                }
+                let labels = unwire(&w.0).unwrap_or_default();
+                if g.is_in_zone(apex) != at_or_below(&labels, &u.apex_labels) {
+                    bad.push(format!("is_in_zone|{} -> {}", show_wire(&w.0), g.is_in_zone(apex)));
+                }
+                // documented meaning: owns NS and is not the apex
+                if g.is_zone_cut(apex) != (w.3 && w.0 != apexw) {
+                    bad.push(format!("is_zone_cut|{} -> {}", show_wire(&w.0), g.is_zone_cut(apex)));
+                }
+                // the RRsets of the group, in type order
+                let mine: Vec<(u16, usize)> = rrsets.iter().filter(|x| x.0 == w.0).map(|x| (x.1, x.2)).collect();
+                let theirs: Vec<(u16, usize)> = g.rrsets().map(|s| (s.rtype().to_int(), s.len())).collect();
+                if mine != theirs {
+                    bad.push(format!("owner-rrsets|{}: {:?}, expected {:?}", show_wire(&w.0), theirs, mine));
+                }
+            }
+        }
+        let theirs: Vec<(Vec<u8>, u16, usize)> = sorted
+            .rrsets()
+            .map(|s| {
+                let ok = s.iter().count() == s.len() && s.first().rtype() == s.rtype() && s.class() == Class::IN && s.iter().all(|r| r.ttl() == s.ttl());
+                (s.owner().as_slice().to_ascii_lowercase(), s.rtype().to_int(), if ok { s.len() } else { usize::MAX })
+            })
+            .collect();
+        if theirs != rrsets {
+            bad.push("rrsets|SortedRecords::rrsets() does not yield the (owner, type) groups in order".into());
+        }
+        let soa = sorted.find_soa().map(|s| s.owner().as_slice().to_ascii_lowercase());
+        let want = rrsets.iter().find(|x| x.1 == T_SOA).map(|x| x.0.clone());
+        if soa != want {
+            bad.push(format!("find_soa|{:?}", soa.as_deref().map(show_wire)));
+        }
+        for t in [T_NS, T_SOA, T_TXT, 256, T_DNSKEY] {
+            let got = sorted.find_apex_rtype(apex, Rtype::from_int(t)).map(|s| s.len());
+            let want = rrsets.iter().find(|x| x.0 == apexw && x.1 == t).map(|x| x.2);
+            if got != want {
+                bad.push(format!("find_apex_rtype|{} -> {:?}, expected {:?}", tname(t), got, want));
+            }
+        }
+        bad
+    });
+    match r {
+        Ok(bad) => {
+            for b in bad {
+                let (k, what) = b.split_once('|').unwrap_or(("?", &b));
+                ctx.violation(&format!("C13|records-iter|{k}"), &format!("{what}; input: {}", text()), replay());
+            }
+        }
+        Err(p) => {
+            ctx.violation(&format!("C13|records-iter|panic|{}", panic_class(&p)), &format!("iterating SortedRecords panicked: {p}; input: {}", text()), replay());
+        }
+    }
+}
+
+// ---------------------------------------------- zone-independent checks
+
+/// NSEC3 hash entry points and salt / owner-hash constructors (every closure
+/// name in lower and upper case x the parameter menu), the unsupported
+/// algorithm error path, and `RtypeBitmapBuilder` fed in every order.
+fn static_checks(ctx: &Ctx, u: &Universe, loc: &mut Local) {
+    // ---- hashing
+    for (pi, (salt, it)) in u.params.iter().enumerate() {
+        let s_bytes = Nsec3Salt::<Bytes>::from_octets(Bytes::from(salt.clone())).expect("salt");
+        let s_vec = Nsec3Salt::<Vec<u8>>::from_octets(salt.clone()).expect("salt");
+        let s_ref = Nsec3Salt::<&[u8]>::from_octets(salt.as_slice()).expect("salt");
+        // other constructors of the same salt
+        let text = if salt.is_empty() { "-".to_string() } else { hex(salt) };
+        let ctor_ok = guard(|| {
+            let a = text.parse::<Nsec3Salt<Vec<u8>>>().map(|x| x.as_slice() == salt.as_slice()).unwrap_or(false);
+            let b = text.to_uppercase().parse::<Nsec3Salt<Bytes>>().map(|x| x.as_slice() == salt.as_slice()).unwrap_or(false);
+            let c = Nsec3Salt::from_bytes(Bytes::from(salt.clone())).map(|x| x.as_slice() == salt.as_slice()).unwrap_or(false);
+            let d = Nsec3Salt::from_slice(salt).map(|x| x.as_slice() == salt.as_slice()).unwrap_or(false);
+            let e = !salt.is_empty() || Nsec3Salt::<Vec<u8>>::empty().as_slice().is_empty();
+            let f = format!("{s_vec}").eq_ignore_ascii_case(&text);
+            a && b && c && d && e && f
+        });
+        loc.evals += 1;
+        if ctor_ok != Ok(true) {
+            ctx.violation("C13|nsec3|salt|constructors-disagree", &format!("Nsec3Salt from_str / from_bytes / from_slice / empty / Display of salt {} disagree: {ctor_ok:?}", hex(salt)), json!({"mode": "static", "salt": hex(salt)}));
+        }
+        for (id, n) in u.names.iter().enumerate() {
+            let want = u.hashes[pi][id];
+            let upper: Labels = n.iter().map(|l| l.to_ascii_uppercase()).collect();
+            for labels in [n.clone(), upper] {
+                loc.evals += 1;
+                loc.inc("static_hash_cases");
+                let nb: LName = gname(&labels);
+                let nv: VName = gname(&labels);
+                let r = guard(|| {
+                    let mut bad = Vec::new();
+                    match nsec3_hash::<_, _, Vec<u8>>(&nb, Nsec3HashAlgorithm::SHA1, *it, &s_bytes) {
+                        Ok(h) if h.as_slice() == want => {}
+                        _ => bad.push("nsec3_hash<&Name<Bytes>,Bytes,Vec<u8>>"),
+                    }
+                    match nsec3_hash::<_, _, bytes::BytesMut>(nv.clone(), Nsec3HashAlgorithm::SHA1, *it, &s_vec) {
+                        Ok(h) if h.as_slice() == want => {}
+                        _ => bad.push("nsec3_hash<Name<Vec<u8>>,Vec<u8>,BytesMut>"),
+                    }
+                    match nsec3_hash::<_, _, Vec<u8>>(&nv, Nsec3HashAlgorithm::SHA1, *it, &s_ref) {
+                        Ok(h) if h.as_slice() == want => {}
+                        _ => bad.push("nsec3_hash<&Name<Vec<u8>>,&[u8],Vec<u8>>"),
+                    }
+                    if salt.is_empty() && *it == 0 {
+                        match nsec3_default_hash::<_, Vec<u8>>(&nb) {
+                            Ok(h) if h.as_slice() == want => {}
+                            _ => bad.push("nsec3_default_hash"),
+                        }
+                    }
+                    // documented error path: only SHA-1 is supported
+                    for alg in [0u8, 2, 255] {
+                        match nsec3_hash::<_, _, Vec<u8>>(&nb, Nsec3HashAlgorithm::from_int(alg), *it, &s_bytes) {
+                            Err(Nsec3HashError::UnsupportedAlgorithm) => {}
+                            _ => bad.push("nsec3_hash-accepts-unsupported-algorithm"),
+                        }
+                    }
+                    // owner hash value <-> presentation form
+                    let own = b32hex_encode(&want);
+                    match OwnerHash::<Vec<u8>>::from_octets(want.to_vec()) {
+                        Ok(h) if format!("{h}").eq_ignore_ascii_case(&own) && own.parse::<OwnerHash<Bytes>>().map(|x| x.as_slice() == want).unwrap_or(false) && OwnerHash::from_bytes(Bytes::from(want.to_vec())).is_ok() && OwnerHash::from_slice(&want).is_ok() => {}
+                        _ => bad.push("OwnerHash-presentation"),
+                    }
+                    bad
+                });
+                let replay = json!({"mode": "static", "name": show_name(&labels), "salt": hex(salt), "iterations": it});
+                match r {
+                    Ok(bad) => {
+                        for b in bad {
+                            ctx.violation(&format!("C13|nsec3|hash-api|{b}"), &format!("{b}: result for {} salt {} iterations {} differs from own RFC 5155 §5 hash {}", show_name(&labels), hex(salt), it, b32hex_encode(&want)), replay.clone());
+                        }
+                    }
+                    Err(p) => {
+                        ctx.violation(&format!("C13|nsec3|hash-api|panic|{}", panic_class(&p)), &format!("hashing {} panicked: {p}", show_name(&labels)), replay);
+                    }
+                }
+            }
+        }
+    }
+    // ---- generate_nsec3s with a hash algorithm other than SHA-1 must refuse
+    {
+        let recs = apex_recs(1);
+        let sorted = sorted_of(&recs);
+        let apex = lname(&parse_name(APEX));
+        for alg in [0u8, 2, 255] {
+            loc.evals += 1;
+            let params = Nsec3param::new(Nsec3HashAlgorithm::from_int(alg), 0, 0, Nsec3Salt::<Bytes>::from_octets(Bytes::new()).expect("salt"));
+            let cfg = GenerateNsec3Config::<Bytes, DefaultSorter>::new(params);
+            let r = guard(|| generate_nsec3s(&apex, sorted.owner_rrs(), &cfg).map(|o| o.nsec3s.len()));
+            let ok = matches!(r, Ok(Err(SigningError::Nsec3HashingError(Nsec3HashError::UnsupportedAlgorithm))));
+            loc.inc(if ok { "static_unsupported_algorithm_refused" } else { "static_unsupported_algorithm_not_refused" });
+            if !ok {
+                ctx.violation("C13|nsec3|config|unsupported-hash-algorithm-not-refused", &format!("generate_nsec3s with hash algorithm {alg} returned {:?} instead of Nsec3HashingError(UnsupportedAlgorithm)", r.map(|x| x.map_err(|e| format!("{e:?}")))), json!({"mode": "static", "algorithm": alg}));
+            }
+        }
+    }
+    // ---- RtypeBitmapBuilder: every ordered pair (incl. a type twice) of the
+    //      menu, every ordered triple of the window-boundary sub-menu, through
+    //      each constructor
+    let menu = type_menu();
+    let sub: Vec<u16> = menu.iter().copied().filter(|t| matches!(t & 0xff, 0 | 1 | 0xfe | 0xff) || matches!(*t, 46 | 47 | 51 | 127 | 128)).collect();
+    let mut seqs: Vec<Vec<u16>> = Vec::new();
+    for a in &menu {
+        for b in &menu {
+            seqs.push(vec![*a, *b]);
+        }
+    }
+    for a in &sub {
+        for b in &sub {
+            for c in &sub {
+                if a != b && b != c && a != c {
+                    seqs.push(vec![*a, *b, *c]);
+                }
+            }
+        }
+    }
+    let bad: Vec<(Vec<u16>, &'static str)> = seqs
+        .par_iter()
+        .filter_map(|seq| {
+            let want = bitmap_encode(seq);
+            let r = guard(|| {
+                let mut b1 = RtypeBitmapBuilder::new_vec();
+                let mut b2 = RtypeBitmap::<Bytes>::builder();
+                let mut b3: RtypeBitmapBuilder<Vec<u8>> = Default::default();
+                let mut b4 = RtypeBitmapBuilder::with_builder(Vec::<u8>::new());
+                for t in seq {
+                    let t = Rtype::from_int(*t);
+                    if b1.add(t).is_err() || b2.add(t).is_err() || b3.add(t).is_err() || b4.add(t).is_err() {
+                        return Some("add-failed");
+                    }
+                }
+                let (m1, m2, m3, m4) = (b1.finalize(), b2.finalize(), b3.finalize(), b4.finalize());
+                if m1.as_slice() != want || m2.as_slice() != want || m3.as_slice() != want || m4.as_slice() != want {
+                    return Some("finalize-octets-differ-from-rfc4034-encoding");
+                }
+                let mut api = Vec::new();
+                bitmap_api(&m2, true, &mut api);
+                api.first().copied()
+            });
+            match r {
+                Ok(None) => None,
+                Ok(Some(k)) => Some((seq.clone(), k)),
+                Err(_) => Some((seq.clone(), "panic")),
+            }
+        })
+        .collect();
+    loc.evals += seqs.len() as u64;
+    loc.add("static_bitmap_builder_sequences", seqs.len() as u64);
+    for (seq, k) in bad {
+        ctx.violation(&format!("C13|bitmap-builder|{k}"), &format!("RtypeBitmapBuilder fed {} in this order: {k}", tnames(&seq)), json!({"mode": "static", "types": seq}));
+    }
 }
 
 fn run_replay(ctx: &Ctx, path: &str) -> ! {
@@ -1771,7 +2489,14 @@ fn run_replay(ctx: &Ctx, path: &str) -> ! {
         None
     };
     let run = Run { ctx, u: &u, apex: lname(&u.apex_labels), verbose: true };
-    let sorted = match guard(|| sorted_of(&recs)) {
+    if case["mode"] == "static" {
+        static_checks(ctx, &u, &mut loc);
+        println!("replay: {} violation class(es) in the zone-independent checks", ctx.violation_count());
+        ctx.finish(json!({"evaluations": loc.evals.max(1), "distinct_nontrivial": 0, "rule": "replay of the zone-independent checks", "samples": [case.clone()], "exhaustive": false, "counters": loc.map()}), &["replay"]);
+    }
+    let route = Route::parse(case["route"].as_str().unwrap_or("owned"));
+    let built = guard(|| (sorted_of(&recs), sorted_v_of(&recs)));
+    let (sorted, sorted_v) = match built {
         Ok(s) => s,
         Err(p) => {
             println!("SortedRecords::from_iter panicked: {p}");
@@ -1780,17 +2505,52 @@ fn run_replay(ctx: &Ctx, path: &str) -> ! {
         }
     };
     let eff = check_sorted(&run, &recs, &sorted, &mut loc);
+    check_routes(&run, &recs, &sorted, &sorted_v, &mut loc);
+    check_iters(&run, &recs, &sorted, &eff, &mut loc);
     let z = Zone::build_eff(&u, recs, &eff);
+    let src = Src { sorted: &sorted, sorted_v: Some(&sorted_v) };
     if let Some(cfg) = n3 {
-        check_nsec3(&run, &z, &sorted, &N3Run::new(&u, cfg), &mut loc);
+        check_nsec3(&run, &z, &src, route, &N3Run::new(&u, cfg), true, &mut loc);
     } else if case["mode"] == "nsec" {
-        check_nsec(&run, &z, &sorted, case["dnskey"].as_bool().unwrap_or(true), &mut loc);
+        check_nsec(&run, &z, &src, route, case["dnskey"].as_bool().unwrap_or(true), true, &mut loc);
     }
     println!("replay: {} violation class(es) on this case", ctx.violation_count());
     ctx.finish(
         json!({"evaluations": loc.evals.max(1), "distinct_nontrivial": 0, "rule": "replay of one case", "samples": [case.clone()], "exhaustive": false, "counters": loc.map()}),
         &["replay of a single recorded case"],
     );
+}
+
+/// Everything that is done for one zone: build it through the library,
+/// check the container and its iterators, then every generator run.
+/// `deep_all`: wire round-trip / presentation checks on every run (else only
+/// on the first NSEC and the first NSEC3 configuration).
+fn run_zone(run: &Run, recs: Vec<(Labels, u16, u8)>, n3runs: &[N3Run], route_cfg: &N3Run, extra_routes: &[Route], deep_all: bool, loc: &mut Local) -> Option<Zone> {
+    let (ctx, u) = (run.ctx, run.u);
+    let (sorted, sorted_v) = match guard(|| (sorted_of(&recs), sorted_v_of(&recs))) {
+        Ok(s) => s,
+        Err(p) => {
+            ctx.violation(&format!("C13|sorted-records|panic|{}", panic_class(&p)), &format!("SortedRecords::from_iter panicked: {p}"), json!({"mode": "sorted", "records": recs.iter().map(|(o, t, v)| json!([show_name(o), t, v])).collect::<Vec<_>>()}));
+            return None;
+        }
+    };
+    let eff = check_sorted(run, &recs, &sorted, loc);
+    check_routes(run, &recs, &sorted, &sorted_v, loc);
+    check_iters(run, &recs, &sorted, &eff, loc);
+    let z = Zone::build_eff(u, recs, &eff);
+    let src = Src { sorted: &sorted, sorted_v: Some(&sorted_v) };
+    for dnskey in [true, false] {
+        check_nsec(run, &z, &src, Route::Owned, dnskey, deep_all || dnskey, loc);
+    }
+    for (i, n3) in n3runs.iter().enumerate() {
+        check_nsec3(run, &z, &src, Route::Owned, n3, deep_all || i == 0, loc);
+    }
+    for r in extra_routes {
+        loc.inc("route_generator_runs");
+        check_nsec(run, &z, &src, *r, true, deep_all, loc);
+        check_nsec3(run, &z, &src, *r, route_cfg, deep_all, loc);
+    }
+    Some(z)
 }
 
 fn main() {
@@ -1808,6 +2568,17 @@ fn main() {
     let shapes: Mutex<BTreeSet<u64>> = Mutex::new(BTreeSet::new());
     let wd = Watchdog::start(ctx.clone(), Duration::from_secs(60), |_d| "C13|hang|generator-did-not-terminate".to_string());
     let f_id = u.id_of(&parse_name("f.z.")).unwrap();
+    // configuration used for the extra routes (refs / Vec<u8> octets)
+    let route_cfg = N3Run::new(&u, N3Cfg { salt: vec![0xAB], iters: 1, opt_out: true, exclude: true, dnskey: true, ttl_mode: 2 });
+    {
+        let mut loc = Local::default();
+        static_checks(&ctx, &u, &mut loc);
+        let mut t = total.lock().unwrap();
+        t.evals += loc.evals;
+        for (k, v) in &loc.c {
+            t.add(k, *v);
+        }
+    }
 
     const CHUNK: u64 = 128;
     let nchunks = nzones.div_ceil(CHUNK);
@@ -1817,16 +2588,10 @@ fn main() {
         for zi in ch * CHUNK..((ch + 1) * CHUNK).min(nzones) {
             let (recs, _kinds) = zone_of_index(&sl, zi);
             wd.enter(|| json!({"zone_index": zi, "records": recs.iter().map(|(o, t, v)| json!([show_name(o), t, v])).collect::<Vec<_>>()}));
-            let sorted = match guard(|| sorted_of(&recs)) {
-                Ok(s) => s,
-                Err(p) => {
-                    ctx.violation(&format!("C13|sorted-records|panic|{}", panic_class(&p)), &format!("SortedRecords::from_iter panicked: {p}"), json!({"mode": "sorted", "records": recs.iter().map(|(o, t, v)| json!([show_name(o), t, v])).collect::<Vec<_>>()}));
-                    wd.leave();
-                    continue;
-                }
+            let Some(z) = run_zone(&run, recs, &n3runs, &route_cfg, &[Route::Refs, Route::VecOcts], false, &mut loc) else {
+                wd.leave();
+                continue;
             };
-            let eff = check_sorted(&run, &recs, &sorted, &mut loc);
-            let z = Zone::build_eff(&u, recs, &eff);
             loc.inc("zones");
             // shape histogram of the enumerated zones (vacuity exposure)
             let ents = z.cls.iter().filter(|c| **c == Cls::Ent).count();
@@ -1888,12 +2653,6 @@ fn main() {
                 }
                 k
             };
-            for dnskey in [true, false] {
-                check_nsec(&run, &z, &sorted, dnskey, &mut loc);
-            }
-            for n3 in &n3runs {
-                check_nsec3(&run, &z, &sorted, n3, &mut loc);
-            }
             if nontrivial {
                 for mode in [0u8, 3] {
                     let mut k = zkey.clone();
@@ -1934,26 +2693,11 @@ fn main() {
         for recs in chunk {
             let recs = recs.clone();
             wd.enter(|| json!({"type_sweep": true, "records": recs.iter().map(|(o, t, v)| json!([show_name(o), t, v])).collect::<Vec<_>>()}));
-            let sorted = match guard(|| sorted_of(&recs)) {
-                Ok(s) => s,
-                Err(p) => {
-                    ctx.violation(&format!("C13|sorted-records|panic|{}", panic_class(&p)), &format!("SortedRecords::from_iter panicked: {p}"), json!({"mode": "sorted", "records": recs.iter().map(|(o, t, v)| json!([show_name(o), t, v])).collect::<Vec<_>>()}));
-                    wd.leave();
-                    continue;
-                }
+            let Some(z) = run_zone(&run, recs, &sweep_cfgs, &sweep_cfgs[2], &[Route::Refs, Route::Wrapped, Route::VecOcts], true, &mut loc) else {
+                wd.leave();
+                continue;
             };
-            let eff = check_sorted(&run, &recs, &sorted, &mut loc);
-            if eff.len() != recs.len() {
-                loc.inc("type_sweep_records_not_held_by_sorted_records");
-            }
-            let z = Zone::build_eff(&u, recs, &eff);
             loc.inc("type_sweep_zones");
-            for dnskey in [true, false] {
-                check_nsec(&run, &z, &sorted, dnskey, &mut loc);
-            }
-            for n3 in &sweep_cfgs {
-                check_nsec3(&run, &z, &sorted, n3, &mut loc);
-            }
             let mut k = Vec::new();
             for (o, t, v) in &z.recs {
                 k.extend_from_slice(&wire(o));
@@ -2041,8 +2785,18 @@ fn main() {
                     "zones": sweep.len(),
                     "nsec3_configs": sweep_cfgs.iter().map(|c| c.cfg.json()).collect::<Vec<_>>(),
                     "storage": "typed record data for A NS CNAME SOA TXT AAAA DS, ZoneRecordData::Unknown for every other number",
-                    "policy": "types 41, 128..=255, 50 (and 47 under NSEC3) cannot be zone data / are signer output: when such a record is in the input its bit may be set or clear (observed_* counters record what the library does); every other type number must be listed exactly; SortedRecords refused none of the menu types unless type_sweep_records_not_held_by_sorted_records > 0",
+                    "policy": "types 41, 128..=255, 50 (and 47 under NSEC3) cannot be zone data / are signer output: when such a record is in the input its bit may be set or clear (observed_* counters record what the library does); every other type number must be listed exactly; SortedRecords refused none of the menu types unless the counter sorted_records_lost_a_record appears",
                 },
+                "routes_into_the_generators": {
+                    "owned": "SortedRecords<Name<Bytes>,_>::from_iter(unsorted).owner_rrs(): every zone x every configuration",
+                    "refs": "RecordsIter::new_from_refs over Vec<&Record>: every zone (product and type sweep) x NSEC(dnskey on) + NSEC3 (AB,1,opt-out+exclusion,ttl SoaMinimum)",
+                    "vec-octets": "the zone, apex and GenerateNsec3Config built over Vec<u8> octets: same runs as refs",
+                    "wrapped": "RecordsIter::new(SliceRefsOrOwned::new_from_owned(&sorted[..])): type-sweep zones",
+                    "default-configs": "GenerateNsecConfig::default() and GenerateNsec3Config::default() are what is run for the configurations they document",
+                },
+                "container_checks_per_zone": "SortedRecords via From<Vec>, new()+insert() in reverse order (+ duplicate refused), superset shrunk by remove_first/remove_all_by_name_class_rtype (+ return values), update_data on the apex SOA, into_inner/len/is_empty/iter/deref, Vec<u8> octets: identical content; owner_rrs()/rrsets()/OwnerRrs::rrsets()/find_soa/find_apex_rtype/is_zone_cut/is_in_zone against own grouping of the held records",
+                "record_api_checks": "every generated record: RtypeBitmap::iter/into_iter/contains/is_empty against own decoding; NSEC/NSEC3 TTL = min(SOA TTL, SOA MINIMUM) (SOA TTL above MINIMUM without extras, below with extras); NSEC3PARAM owner/algorithm/iterations/salt/class and TTL per Nsec3ParamTtlMode; 'deep' runs (first NSEC and first NSEC3 configuration of every product zone, every run of the type sweep) additionally: compose_rdata == own RFC 4034 §4.1 / RFC 5155 §3.2 wire form, rdlen, parse(compose) == record, RtypeBitmap::from_octets/compose/compose_len, OwnerHash Display/FromStr against own base32hex",
+                "zone_independent_checks": "nsec3_hash in three octets instantiations + nsec3_default_hash for every closure name in lower and upper case x the (salt, iterations) menu against own hash; algorithms 0/2/255 refused (nsec3_hash and generate_nsec3s); Nsec3Salt and OwnerHash constructors/presentation; RtypeBitmapBuilder (new_vec, RtypeBitmap::builder, Default, with_builder) fed every ordered pair of the 93-type menu and every ordered triple of its window-boundary sub-menu against own encoder, then bitmap API checks",
                 "probe_names": u.names.len(),
                 "probe_types": PROBE_TYPES.iter().map(|t| tname(*t)).collect::<Vec<_>>(),
             },
@@ -2058,7 +2812,7 @@ fn main() {
             "zones are handed to the generators through the library's own SortedRecords (the documented precondition: canonically sorted, apex SOA present, one TTL per RRset); the generators are judged against the records SortedRecords actually holds, and SortedRecords itself is checked for order and for not losing distinct records",
             "RFC 5155 §7.1 lets an empty non-terminal that is only derived from opted-out insecure delegations be left out: the oracle accepts it present or absent",
             "delegation bitmaps are checked against the property text (parent-side types NS/DS only, RRSIG in NSEC3 only with DS)",
-            "TTL values of the generated records and the contents of the NSEC3PARAM record are not part of the property and are not asserted",
+            "TTLs are asserted as documented on the generators (RFC 9077 for NSEC/NSEC3, Nsec3ParamTtlMode for NSEC3PARAM); the NSEC3PARAM flags field is only observed (the library copies the Opt-Out flag into it), its other fields are asserted per RFC 5155 §7.1 step 8",
             "probes at or below delegation points other than DS-at-the-cut, and at names owning a CNAME, are not denials and are skipped",
         ],
     );
